@@ -673,6 +673,8 @@ class StmtMixin:
 
     def check_steps(self, st: State, ls, prev: State, label_kind="step", is_ret=False, is_brk=False):
         clauses = list(ls.step) + (list(ls.step_ret) if is_ret else []) + (list(getattr(ls, "step_brk", [])) if is_brk else [])
+        if not is_ret and not is_brk:
+            clauses += list(getattr(ls, "step_back", []))
         if not clauses:
             return st
         names = dict(self.entry_names)
